@@ -97,6 +97,10 @@ var c19NamedZone = func() *time.Location {
 
 var c19Zone = time.FixedZone("+05:30", 5*3600+1800)
 
+// c19ZoneOverride, if set, is the context zone of every call (further
+// cold-start phases, each in a zone the process has not used yet).
+var c19ZoneOverride *time.Location
+
 // c19Exec runs one input on the given paths and returns the result fingerprint.
 func c19Exec(paths []*path.Path, docs []any, vars map[string]any, in c19Input, exposed []bool, yieldEvery int) string {
 	p := paths[in.pi]
@@ -116,6 +120,9 @@ func c19Exec(paths []*path.Path, docs []any, vars map[string]any, in c19Input, e
 		// no sequential call of this process has used before: whatever the
 		// library sets up on first use of a zone is set up under contention
 		zone = c19NamedZone
+	}
+	if z := c19ZoneOverride; z != nil {
+		zone = z
 	}
 	o := h.CallMonitored(in.entry, p, docs[in.di], h.Opts{Vars: vars, Silent: in.silent, TZ: in.tz, Zone: zone}, m)
 	fp := o.Class
@@ -532,6 +539,67 @@ func runC19(c *h.Ctx) {
 		if h.CanonTyped(coldVars) != varsFP {
 			c.Violate("concurrent-differs", h.F("kind", "shared-input-modified", "phase", "cold-start"), "the shared variables map was modified", h.Case{Kind: "shared-input"})
 		}
+	}
+	// Further cold starts: the first use of each of several zones whose offset is
+	// not a whole number of hours (whatever is kept per zone or per offset is set
+	// up under contention once more), on the datetime paths of the pool; each
+	// judged against sequential calls in the same zone made afterwards.
+	for _, zn := range []string{"Asia/Kathmandu", "America/St_Johns", "Australia/Eucla", "Pacific/Chatham", "Asia/Kabul", "Asia/Yangon", "Pacific/Marquesas"} {
+		loc, err := time.LoadLocation(zn)
+		if err != nil {
+			continue
+		}
+		var dt []int
+		for pi, t := range c19Pool {
+			if strings.Contains(t, "time") || strings.Contains(t, "date") {
+				dt = append(dt, pi)
+			}
+		}
+		zPaths, _ := parsePool()
+		zVars := newVars()
+		c19ZoneOverride = loc
+		c19Concurrent.Store(true)
+		h.NoSharedAtomics = true
+		var wg sync.WaitGroup
+		start := make(chan struct{})
+		per := make([][]c19Op, cf.n)
+		for g := 0; g < cf.n; g++ {
+			wg.Add(1)
+			go func(g int) {
+				defer wg.Done()
+				<-start
+				for k := 0; k < len(dt)*2; k++ {
+					in := c19Input{pi: dt[(k/2+g%3)%len(dt)], di: []int{0, 7}[k%2], entry: []string{"query", "exists"}[(k/2)%2], tz: true}
+					per[g] = append(per[g], c19Op{client: g, in: in, out: c19Exec(zPaths, docs, zVars, in, exposed, cf.yield)})
+				}
+			}(g)
+		}
+		close(start)
+		wg.Wait()
+		c19Concurrent.Store(false)
+		h.NoSharedAtomics = false
+		zb := map[string]string{}
+		bad := 0
+		for _, ops := range per {
+			for _, op := range ops {
+				want, ok := zb[op.in.key()]
+				if !ok {
+					want = c19Exec(basePaths, docs, vars, op.in, exposed, 0)
+					zb[op.in.key()] = want
+				}
+				c.Eval(1)
+				if want != op.out {
+					bad++
+					if bad <= 3 {
+						c.Violate("concurrent-differs", h.F("entry", op.in.entry, "kind", "result", "phase", "cold-start-zone"), fmt.Sprintf("%s(%s) on doc %d among the first calls in zone %s, made concurrently, returned %q; run alone it returns %q", op.in.entry, c19Pool[op.in.pi], op.in.di, zn, op.out, want),
+							h.Case{Kind: "concurrent", Path: c19Pool[op.in.pi], Doc: c19Docs[op.in.di], Entry: op.in.entry, TZ: true, Zone: zn, Vars: c19Vars})
+					}
+				} else {
+					c.Held("concurrent-differs")
+				}
+			}
+		}
+		c19ZoneOverride = nil
 	}
 	// Isolated baseline on the separately parsed copies, sequentially.
 	baseline := map[string]string{}
